@@ -470,3 +470,95 @@ theorem wb_route (sv : Server) (sid : Nat) (pm : PM) (what : String) (hnd : (sv.
       | exact wb_deliver _ _ _ h1
 
 end Muscle.Reflector
+
+/-! ## a node found in the tree is no larger than the tree -/
+
+namespace Muscle.Reflector
+open Muscle
+
+theorem wb_size_of_kids (n : Node) : n.size = 1 + Node.sizeList n.kids := by
+  cases n; simp only [Node.size, Node.kids]
+
+theorem wb_findKid_size {nm : Bytes} : ∀ {kids : List Node} {k : Node}, findKid nm kids = some k → k.size ≤ Node.sizeList kids := by
+  intro kids
+  induction kids with
+  | nil => intro k h; simp [findKid] at h
+  | cons a r ih =>
+    intro k h
+    simp only [findKid] at h
+    simp only [Node.sizeList]
+    split at h
+    · cases h; omega
+    · have := ih h; omega
+
+theorem wb_nodeAt_size : ∀ (path : List Bytes) (fuel : Nat) (n m : Node), nodeAt fuel n path = some m → m.size ≤ n.size := by
+  intro path
+  induction path with
+  | nil =>
+    intro fuel n m h
+    cases fuel <;> simp [nodeAt] at h <;> subst h <;> exact Nat.le_refl _
+  | cons nm rest ih =>
+    intro fuel n m h
+    cases fuel with
+    | zero => simp [nodeAt] at h
+    | succ f =>
+      simp only [nodeAt] at h
+      split at h
+      · cases h
+      · rename_i k hk
+        have h1 := ih f k m h
+        have h2 := wb_findKid_size hk
+        rw [wb_size_of_kids n]
+        omega
+
+theorem wb_getNode_size {sv : Server} {path : List Bytes} {n : Node} (h : getNode sv path = some n) : n.size ≤ sv.root.size :=
+  wb_nodeAt_size path fuelDepth sv.root n h
+
+/-! ## pattern tests per child: the entry loop of `CheckChildForTraversal`, instrumented -/
+
+/-- `checkEntries` with a counter: the number of entries examined (one clause test, `hitB`, per examined entry; the loop stops examining
+    at `done` / abort) -/
+def checkEntriesCost (ctx : TCtx) (rec : Rec) (child : Node) (cn : Visit) (depth : Nat) (known : Option Nat) :
+    List Entry → Nat → CState → CState × Nat
+  | [], _, st => (st, 0)
+  | e :: es, idx, st =>
+    if st.done || st.abort.isSome then (st, 0) else
+    let r := checkEntriesCost ctx rec child cn depth known es (idx + 1)
+      (stepG ctx rec child cn depth (decide (known = some idx) || hitB (depth - ctx.rootDepth) child.name e) e st)
+    (r.1, r.2 + 1)
+
+theorem wb_checkEntriesCost (ctx : TCtx) (rec : Rec) (child : Node) (cn : Visit) (depth : Nat) (known : Option Nat) :
+    ∀ (es : List Entry) (idx : Nat) (st : CState),
+      (checkEntriesCost ctx rec child cn depth known es idx st).1 = checkEntries ctx rec child cn depth known es idx st ∧
+      (checkEntriesCost ctx rec child cn depth known es idx st).2 ≤ es.length := by
+  intro es
+  induction es with
+  | nil => intro idx st; exact ⟨rfl, Nat.le_refl _⟩
+  | cons e es ih =>
+    intro idx st
+    rw [checkEntries_cons]
+    simp only [checkEntriesCost]
+    split
+    · exact ⟨rfl, Nat.zero_le _⟩
+    · obtain ⟨i1, i2⟩ := ih (idx + 1)
+        (stepG ctx rec child cn depth (decide (known = some idx) || hitB (depth - ctx.rootDepth) child.name e) e st)
+      exact ⟨i1, by simp only [List.length_cons]; omega⟩
+
+theorem wb_sum_filter_le (f : (Nat × List Entry) → Nat) (p : (Nat × List Entry) → Bool) : ∀ pm : PM,
+    ((pm.filter p).map f).sum ≤ (pm.map f).sum := by
+  intro pm
+  induction pm with
+  | nil => simp
+  | cons a r ih =>
+    simp only [List.filter_cons]
+    split
+    · simp only [List.map_cons, List.sum_cons]; omega
+    · simp only [List.map_cons, List.sum_cons]; omega
+
+/-- the entries taking part at one level are entries of the matcher -/
+theorem wb_activeEntries_length (pm : PM) (rel : Nat) : (activeEntries pm rel).length ≤ pmNumEntries pm := by
+  unfold activeEntries pmNumEntries
+  rw [List.length_flatMap]
+  exact wb_sum_filter_le (fun x => x.2.length) _ pm
+
+end Muscle.Reflector
